@@ -121,7 +121,12 @@ let run (imp : string) (inp : string) (obs : string) : string * string =
       | Some s -> (match K.account_flag (str_of_string s) with K.AAcc x -> Some x | _ -> None)
       | None -> None in
     match imp with
-    | "viac" -> "ok"                                       (* no executable statement-level specification yet *)
+    | "viac" ->
+      let from = match opt_flag (get "from") with Some f -> Some (str_of_string f) | None -> None in
+      (match acct, decode_viac items with
+       | Some c, K.VValues l when K.valid_name (str_of_string c) ->
+         statement_verdict imp base (K.viac_statement_output (str_of_string c) from l)
+       | _ -> undecoded)
     | _ ->
       (match acc, records_of (decode_items items) with
        | Some a, Some rs ->
